@@ -38,6 +38,29 @@ pub fn gen_patcfg(t: &mut Tape, o: &ReOpts) -> PatCfg {
             patterns.push(gen::gen_re(t, o).render());
         }
     }
+    if !fixed && t.chance(1, 6) {
+        // a second pattern that differs from the first only in letter case - which is part of the
+        // syntax after a backslash (\s vs \S, \b vs \B): two different patterns, whatever -i says
+        let twin: String = {
+            let p = &patterns[0];
+            let mut out = String::new();
+            let mut prev_bs = false;
+            let mut changed = false;
+            for c in p.chars() {
+                if prev_bs && matches!(c, 's' | 'S' | 'w' | 'W' | 'd' | 'D' | 'b' | 'B') && !changed {
+                    out.push(if c.is_ascii_lowercase() { c.to_ascii_uppercase() } else { c.to_ascii_lowercase() });
+                    changed = true;
+                } else {
+                    out.push(c);
+                }
+                prev_bs = c == '\\' && !prev_bs;
+            }
+            if changed { out } else { p.chars().map(|c| if c.is_ascii_lowercase() { c.to_ascii_uppercase() } else if c.is_ascii_uppercase() { c.to_ascii_lowercase() } else { c }).collect() }
+        };
+        if twin != patterns[0] {
+            patterns.push(twin);
+        }
+    }
     let case = match t.weighted(&[5, 2, 2]) {
         0 => CaseMode::Sensitive,
         1 => CaseMode::Insensitive,
@@ -75,13 +98,14 @@ pub fn gen_case(t: &mut Tape) -> Case {
         })
         .collect();
     let input = gen::gen_haystack(t, &hirs, pat.term, 12);
+    let case_twin = pat.patterns.len() >= 2 && pat.patterns.iter().skip(1).any(|p| p.to_lowercase() == pat.patterns[0].to_lowercase() && *p != pat.patterns[0]);
     Case {
         pat,
         invert: t.chance(1, 4),
         input: Bs(input),
         reader_chunks: super::c03::gen_chunks(t),
         reader_capacity: t.small(24),
-        cli: t.chance(1, 20),
+        cli: t.chance(1, 20) || (case_twin && t.chance(1, 3)),
     }
 }
 
@@ -330,6 +354,10 @@ fn check_inner(case: &Case) -> Verdict {
     info.class_if(std::str::from_utf8(input).is_err(), "invalid_utf8");
     info.class_if(lines.iter().any(|l| l.end - l.start <= 1), "empty_line");
     info.class_if(case.cli, "cli_run");
+    info.class_if(
+        case.cli && case.pat.case == CaseMode::Insensitive && case.pat.patterns.iter().skip(1).any(|p| p.to_lowercase() == case.pat.patterns[0].to_lowercase() && *p != case.pat.patterns[0]),
+        "cli_run_ignore_case_with_patterns_equal_up_to_letter_case",
+    );
     Verdict::Pass(info)
 }
 
